@@ -21,14 +21,17 @@ import (
 )
 
 type Case struct {
-	ID     int64  `json:"id"`
-	Kind   string `json:"kind"`   // triangle simpulse erroring abaco abacoudp lancero
-	Fault  string `json:"fault"`  // none sample samplelate prepare runearly runlate
-	Write  bool   `json:"write"`  // switch file writing on right after Start
-	Start2 bool   `json:"start2"` // issue a second Start while the first is in force
-	Seed   uint64 `json:"seed"`
-	Ops    []int  `json:"ops"`    // one entry per Stop caller: launched once that many points were released after Start returned (-1: once the source has ended by itself)
-	Silent bool   `json:"silent"` // abaco: the hardware stops sending right after Start (the reader gives up after 5 s)
+	ID         int64  `json:"id"`
+	Kind       string `json:"kind"`   // triangle simpulse erroring abaco abacoudp lancero
+	Fault      string `json:"fault"`  // none sample samplelate prepare runearly runlate
+	Write      bool   `json:"write"`  // switch file writing on right after Start
+	Start2     bool   `json:"start2"` // issue a second Start while the first is in force
+	Seed       uint64 `json:"seed"`
+	Ops        []int  `json:"ops"`                  // one entry per Stop caller: launched once that many points were released after Start returned (-1: once the source has ended by itself)
+	Silent     bool   `json:"silent"`               // abaco: the hardware stops sending right after Start (the reader gives up after 5 s)
+	HoldCore   bool   `json:"holdcore,omitempty"`   // keep the core loop parked for 2.6 s while a Stop caller waits for it
+	SlowClose  int    `json:"slowclose,omitempty"`  // abaco: closing the devices takes this many ms
+	BreakState bool   `json:"breakstate,omitempty"` // while writing: the experiment-state file's descriptor is closed underneath (the STOP label cannot be written)
 	// a history of calls through the RPC entry points instead of a life-cycle trace:
 	// "start:triangle" "start:simpulse" "start:erroring" "selfend" (wait until the running source has ended by itself) "stop"
 	Rpc []string `json:"rpc,omitempty"`
@@ -102,6 +105,9 @@ func runOnce(c Case, watchdog time.Duration) (outcome, error) {
 	if err != nil {
 		return out, err
 	}
+	if c.SlowClose > 0 && src.SetStopDelay != nil {
+		src.SetStopDelay(time.Duration(c.SlowClose) * time.Millisecond)
+	}
 	base := drv.Goroutines()
 	s := sched.New(lib.NewRng(c.Seed), points)
 	dastard.VerifSetPointHook(s.Hook)
@@ -136,6 +142,8 @@ func runOnce(c Case, watchdog time.Duration) (outcome, error) {
 		}
 	}
 	startReturned := false
+	var holdUntil time.Time
+	heldRead, heldAtReturn := false, false
 	abandon := false // a second Start was accepted: the run is beyond repair, report what was seen
 	stepsAfter := 0
 	launched := 0
@@ -191,6 +199,9 @@ func runOnce(c Case, watchdog time.Duration) (outcome, error) {
 			if startClass == "ok" && c.Write && s.ParkedAt("core:before-select") {
 				tmp, _ = os.MkdirTemp("", "verif_c10_")
 				src.Any.WriteControl(&dastard.WriteControlConfig{Request: "START", Path: tmp, WriteLJH22: true})
+				if c.BreakState {
+					src.Any.VerifBreakExperimentStateFile()
+				}
 			}
 			if startClass == "ok" && c.Silent && src.Silence != nil {
 				src.Silence()
@@ -222,10 +233,24 @@ func runOnce(c Case, watchdog time.Duration) (outcome, error) {
 			}
 		}
 		if done() {
+			if !heldRead && len(c.Ops) > 0 {
+				// the last Stop call has just returned: what it promises must hold NOW, not some time later
+				heldRead = true
+				heldAtReturn = src.DevOpen() || src.AdapterOn()
+			}
 			if s.WaitActivity(10 * time.Millisecond) {
 				continue
 			}
 			break
+		}
+		if c.HoldCore && holdUntil.IsZero() && s.InFlightFrom("stop:abort-closed") {
+			holdUntil = time.Now().Add(2600 * time.Millisecond) // a Stop caller waits for the core loop: keep it busy
+		}
+		if time.Now().Before(holdUntil) {
+			if !s.Step(func(n string) bool { return !strings.HasPrefix(n, "core:") && n != "rundone:deactivate" }) {
+				time.Sleep(20 * time.Millisecond)
+			}
+			continue
 		}
 		if startReturned && rng.Chance(1, 4) {
 			obsState()
@@ -279,6 +304,11 @@ func runOnce(c Case, watchdog time.Duration) (outcome, error) {
 	f.Exited = len(f.Left) == 0
 	f.DevOpen = src.DevOpen()
 	f.AdapterOn = src.AdapterOn()
+	if heldAtReturn && c.Kind == "lancero" {
+		f.AdapterOn = true // still running when the last Stop returned
+	} else if heldAtReturn {
+		f.DevOpen = true // still open when the last Stop returned
+	}
 	if out.Hung {
 		s.PassThrough()
 		return out, nil
@@ -468,7 +498,8 @@ func runCase(c Case) (lib.Result, error) {
 		Sd   uint64
 		O    []int
 		Si   bool
-	}{c.Kind, c.Fault, c.Write, c.Start2, c.Seed, c.Ops, c.Silent})}
+		X    []interface{}
+	}{c.Kind, c.Fault, c.Write, c.Start2, c.Seed, c.Ops, c.Silent, []interface{}{c.HoldCore, c.SlowClose, c.BreakState}})}
 	w := 4 * time.Second
 	if c.Silent {
 		w = 9 * time.Second // the Abaco reader's own time-out is 5 s
@@ -498,6 +529,15 @@ func runCase(c Case) (lib.Result, error) {
 	}
 	if c.Start2 {
 		tags["second-start"] = true
+	}
+	if c.HoldCore {
+		tags["core-loop-busy-across-stop"] = true
+	}
+	if c.SlowClose > 0 {
+		tags["slow-device-close"] = true
+	}
+	if c.BreakState {
+		tags["io-fault-at-stop"] = true
 	}
 	// non-trivial: a Start that failed part-way, or a Stop that was inside its critical section while the
 	// core loop had not yet begun to shut down (a genuine race between stop and data flow)
@@ -586,6 +626,12 @@ func gen(seed uint64, tier string) []interface{} {
 	add(Case{Kind: "abaco", Fault: "prepare", Seed: 1, Ops: []int{}})
 	add(Case{Kind: "lancero", Fault: "runlate", Seed: 1, Ops: []int{1}})
 	add(Case{Kind: "abaco", Fault: "none", Seed: 1, Write: true, Silent: true, Ops: []int{-1}}) // the source ends by itself while writing
+	add(Case{Kind: "triangle", Fault: "none", Seed: 2, Ops: []int{2}, HoldCore: true})          // the core loop stays busy for 2.6 s while Stop waits
+	add(Case{Kind: "abaco", Fault: "none", Seed: 2, Ops: []int{1}, SlowClose: 300})             // closing the devices takes 300 ms
+	add(Case{Kind: "abaco", Fault: "none", Seed: 3, Ops: []int{0, 1}, SlowClose: 250})
+	add(Case{Kind: "triangle", Fault: "none", Seed: 3, Write: true, BreakState: true, Ops: []int{2}})             // the STOP label cannot be written
+	add(Case{Kind: "simpulse", Fault: "none", Seed: 4, Write: true, BreakState: true, Ops: []int{0, 0}})          // same, two callers
+	add(Case{Kind: "abaco", Fault: "none", Seed: 5, Write: true, BreakState: true, Silent: true, Ops: []int{-1}}) // same, the run ends by itself
 	// histories through the RPC entry points: Stop arriving after the source ended by itself, repeated Stop, restart
 	for _, h := range [][]string{
 		{"start:erroring", "selfend", "stop", "start:erroring"},
@@ -649,9 +695,14 @@ func gen(seed uint64, tier string) []interface{} {
 			}
 			ops[j] = at
 		}
-		add(Case{Kind: k, Fault: f, Seed: q.U64() % 1000003, Ops: ops,
-			Write:  (k == "triangle" || k == "simpulse") && f == "none" && q.Chance(1, 4),
-			Start2: (k == "triangle" || k == "simpulse") && f == "none" && q.Chance(1, 5)})
+		slow := 0
+		if k == "abaco" && f == "none" && q.Chance(1, 3) {
+			slow = q.Pick([]int{60, 150, 300})
+		}
+		add(Case{Kind: k, Fault: f, Seed: q.U64() % 1000003, Ops: ops, SlowClose: slow,
+			HoldCore: tier == "thorough" && n > 0 && f == "none" && q.Chance(1, 40),
+			Write:    (k == "triangle" || k == "simpulse") && f == "none" && q.Chance(1, 4),
+			Start2:   (k == "triangle" || k == "simpulse") && f == "none" && q.Chance(1, 5)})
 	}
 	nrpc := 30
 	if tier == "thorough" {
@@ -721,7 +772,7 @@ func main() {
 		Verdict:  "verdict",
 		PerShard: 40,
 		Isolate:  true,
-		Chunk:    6,
+		Chunk:    3,
 		Workers:  12,
 	}
 	h.Main()
